@@ -2,6 +2,7 @@ package routing
 
 import (
 	"fmt"
+	"math/bits"
 	"net/netip"
 )
 
@@ -45,10 +46,14 @@ func (g *Gateway) String() string {
 	return fmt.Sprintf("{addr: %s, weight: %d}", g.addr, g.weight)
 }
 
-// Divide and round to nearest integer
-func divideAndRound(v uint64, d uint64) uint64 {
-	var tmp uint64 = v + d/2
-	return tmp / d
+// Scale w by 2^31, divide by total and round to nearest integer.
+// The intermediate w<<31 does not fit in 64 bits once the total weight reaches 2^33
+// (e.g. 8 gateways of weight math.MaxInt32), so it is carried in 128 bits.
+func scaleAndRound(w uint64, total uint64) uint64 {
+	hi, lo := bits.Mul64(w, 1<<31)
+	lo, carry := bits.Add64(lo, total/2, 0)
+	q, _ := bits.Div64(hi+carry, lo, total)
+	return q
 }
 
 // Implements Hash-Threshold mapping, equivalent to the implementation in the linux kernel.
@@ -64,7 +69,7 @@ func CalculateBucketsForGateways(gateways []Gateway) {
 	var loopWeight int = 0
 	for i := range gateways {
 		loopWeight += gateways[i].weight
-		gateways[i].bucketUpperBound = int(divideAndRound(uint64(loopWeight)<<31, uint64(totalWeight))) - 1
+		gateways[i].bucketUpperBound = int(scaleAndRound(uint64(loopWeight), uint64(totalWeight))) - 1
 	}
 
 }
